@@ -151,12 +151,14 @@ TreeSet_pop(BTree* self, PyObject* args)
         remove_result = TreeSet_remove(self, remove_args);
         Py_DECREF(remove_args);
         if (remove_result) {
-            Py_INCREF(key);
+            /* minKey gave us a new reference:  hand it to the caller. */
             result = key;
+            key = NULL;
             Py_DECREF(remove_result);
         }
     }
 
+    Py_XDECREF(key);
     return result;
 }
 
